@@ -2,6 +2,7 @@ package sim
 
 import (
 	"errors"
+	"io"
 )
 
 // ErrSink is the error injected by a faulty sink.
@@ -110,4 +111,45 @@ func (s *RCSink) Commit() {
 		s.Env.Yield("sink.commit")
 	}
 	s.Commits++
+}
+
+// RichSink is a SimSink that also offers the optional writer interfaces of package io
+// (io.StringWriter, io.ByteWriter, io.ReaderFrom), as bytes.Buffer, strings.Builder,
+// bufio.Writer and os.File do. Code that upgrades to one of them must deliver the same bytes.
+type RichSink struct {
+	*SimSink
+	Upgrades int // calls that came in through an optional interface
+}
+
+func (s *RichSink) WriteString(str string) (int, error) {
+	s.Upgrades++
+	return s.SimSink.Write([]byte(str))
+}
+
+func (s *RichSink) WriteByte(c byte) error {
+	s.Upgrades++
+	_, err := s.SimSink.Write([]byte{c})
+	return err
+}
+
+func (s *RichSink) ReadFrom(r io.Reader) (int64, error) {
+	s.Upgrades++
+	var total int64
+	buf := make([]byte, 512)
+	for {
+		n, err := r.Read(buf)
+		if n > 0 {
+			m, werr := s.SimSink.Write(buf[:n])
+			total += int64(m)
+			if werr != nil {
+				return total, werr
+			}
+		}
+		if err != nil {
+			if err == io.EOF {
+				return total, nil
+			}
+			return total, err
+		}
+	}
 }
